@@ -128,20 +128,22 @@ class Session:
         self.ctl = None
         self.seq = 0
         self.rx_event = asyncio.Event()
+        self.host = "127.0.0.1"   # where the proxy's listeners are ("::1" for the IPv6 sessions)
 
     async def open(self, P, tag, rebind_port=None, pipeline_first=None):
         loop = asyncio.get_running_loop()
         if self.lk == "socks":
-            self.ctl = await open_conn("127.0.0.1", P["A.socks-" + self.ck])
+            self.ctl = await open_conn(self.host, P["A.socks-" + self.ck])
             rep, bh, bp = await socks5_connect(self.ctl, "0.0.0.0", 0, cmd=3)
             if rep != 0:
                 raise RuntimeError("udp associate refused rep=%s" % rep)
-            self.relay = ("127.0.0.1", bp)
+            self.relay = (self.host, bp)
         elif self.lk == "rev":
-            self.relay = ("127.0.0.1", P["A.rev-" + self.ck])
+            self.relay = (self.host, P["A.rev-" + self.ck])
         elif self.lk == "http":
-            self.ctl = await open_conn("127.0.0.1", P["A.http"])
-            wire = http_connect_bytes("0.0.0.0", tag[self.ck], [("Proxy-Protocol", "udp")])
+            self.ctl = await open_conn(self.host, P["A.http"])
+            # (the upstream UDP socket takes the address family of the CONNECT target)
+            wire = http_connect_bytes("::" if ":" in self.host else "0.0.0.0", tag[self.ck], [("Proxy-Protocol", "udp")])
             if pipeline_first:
                 # the first frame travels in the same segment as the CONNECT request (the session id is not known yet: 0)
                 seed, origin, size = pipeline_first
@@ -158,13 +160,13 @@ class Session:
             self.sid = int(hdrs.get("session-id", "0"))
             self.reader = asyncio.ensure_future(self._read_frames())
             return
-        s = socket.socket(socket.AF_INET, socket.SOCK_DGRAM)
+        s = socket.socket(socket.AF_INET6 if ":" in self.host else socket.AF_INET, socket.SOCK_DGRAM)
         if rebind_port:
             s.setsockopt(socket.SOL_SOCKET, socket.SO_REUSEADDR, 1)  # (never with port 0: the kernel could then hand out a port twice)
         s.setsockopt(socket.SOL_SOCKET, socket.SO_RCVBUF, 16 << 20)
         # a port of its own that no other session of this run ever gets (a kernel-chosen port could be one that another session
         # closed a moment ago, whose late replies would then reach the wrong owner - UDP semantics, not the proxy's doing)
-        s.bind(("127.0.0.1", rebind_port or free_port()))
+        s.bind((self.host, rebind_port or free_port()))
         s.setblocking(False)
         self.sock = s
         self.port = s.getsockname()[1]
@@ -276,12 +278,13 @@ class Session:
 
 
 async def main(args):
-    out = Out("C10", "c10", "paths {socks5 udp-associate, reverse udp, CONNECT+inline frames} x upstream {direct, http inline, socks5, quic datagrams, quic inline}; destinations IPv4/IPv6/domain; payload sizes {22..65000}; first and later datagrams of a session; stop-and-wait (loss judged) and pipelined bursts over 1..12 concurrent sessions (safety judged); client re-bind on the same source port; every datagram carries ids + keystream. distinct = distinct (listener, connector, size class, destination form, mode, first/later)")
+    out = Out("C10", "c10", "paths {socks5 udp-associate, reverse udp, CONNECT+inline frames} x upstream {direct, http inline, socks5, quic datagrams, quic inline}; destinations IPv4/IPv6/domain; payload sizes {22..65000} plus the largest round trips over IPv4 (65506) and IPv6 (65526, listeners and origin on ::1) on the header-less paths; first and later datagrams of a session; stop-and-wait (loss judged) and pipelined bursts over 1..12 concurrent sessions (safety judged); client re-bind on the same source port; every datagram carries ids + keystream. distinct = distinct (listener, connector, size class, destination form, mode, first/later)")
     rng = random.Random(args.seed)
     wd = workdir("c10")
     origins = [await mk_origin(1), await mk_origin(2)]
     # IPv6 destinations need an IPv6 association (the upstream socket takes the family of the client's
-    # source address), which these IPv4 loopback clients do not create; they are left out deliberately.
+    # source address / of the CONNECT target), which these IPv4 loopback clients do not create; the IPv6
+    # sessions of the size-limit block below use listeners and an origin on ::1.
     A, B, P, tag = build(args, wd, origins)
     sessions = []
 
@@ -670,6 +673,50 @@ async def main(args):
                 jobs.append(rebind(ck, client_id + 50 + rep, sess_id))
         await asyncio.gather(*jobs)
         await asyncio.sleep(0.5)
+        # ---------------- datagrams at the size limits: the largest UDP payload is 65507 bytes over IPv4 and 65527 over IPv6; the
+        # echo adds one byte, so the largest round trip is 65506 / 65526. Paths without a per-datagram header on the client side
+        # (reverse UDP, CONNECT + inline frames) can carry them; an IPv6 origin on ::1 and listeners on ::1
+        origin6 = await mk_origin(3, "::1", socket.AF_INET6)
+        origins.append(origin6)
+        PV = {k: free_port() for k in ("http6", "rev6", "http4", "rev4", "api")}
+        V = Proxy(args.bin, base_cfg([{"name": "http6", "type": "http", "bind": "[::1]:%d" % PV["http6"]}, {"name": "http4", "type": "http", "bind": "127.0.0.1:%d" % PV["http4"]},
+                                      {"name": "rev6", "type": "reverse", "protocol": "udp", "bind": "[::1]:%d" % PV["rev6"], "target": "[::1]:%d" % origin6.port},
+                                      {"name": "rev4", "type": "reverse", "protocol": "udp", "bind": "127.0.0.1:%d" % PV["rev4"], "target": "127.0.0.1:%d" % origins[0].port}],
+                                     [{"name": "direct"}], [{"target": "direct"}], metrics_port=PV["api"], timeouts={"idle": 600, "udp": 600}), "V", wd)
+        try:
+            await V.start()
+            await asyncio.sleep(0.3)
+
+            async def limits(lk, fam, cid, sid):
+                s = Session(lk, "direct", cid, sid)
+                s.host = "::1" if fam == 6 else "127.0.0.1"
+                o = origin6 if fam == 6 else origins[0]
+                sessions.append(s)
+                who = "%s via direct (IPv%d listener, IPv%d origin)" % (lk, fam, fam)
+                try:
+                    await s.open({"A.http": PV["http%d" % fam], "A.rev-direct": PV["rev%d" % fam]}, {"direct": 2000})
+                except Exception as e:
+                    out.violation("UDP association could not be established: %s" % who, {"error": repr(e)[:200], "V.stderr": V.stderr_tail(500)})
+                    return
+                top = 65526 if fam == 6 else 65506
+                for size in [1200, 65000, 65505, top - 19, top - 6, top - 1, top, 30000]:
+                    out.case()
+                    seq, p = s.send(args.seed, o, size, "ipv6" if fam == 6 else "ipv4")
+                    r = await s.wait_reply(seq, 3.0)
+                    out.nontrivial((lk, "direct", "limit", fam, size))
+                    if r is None:
+                        arrived = [len(d) for (_, _, d) in o.got if d[:64] == p[:64]]
+                        out.violation("datagram lost without network loss (payload near the largest UDP datagram): %s" % who, {"size": size, "origin_got_lengths": arrived})
+                    elif r[1][1:] != p:
+                        out.violation("reply payload differs from the datagram sent: %s" % who, {"size": size, "got_len": len(r[1]) - 1})
+            jobs = []
+            for lk in ("rev", "http"):
+                for fam in (6, 4):
+                    sess_id += 1
+                    jobs.append(limits(lk, fam, client_id + 97, sess_id))
+            await asyncio.gather(*jobs)
+        finally:
+            V.kill()
         # ---------------- a reverse-UDP client whose session expired sends again (listener bound to 127.0.0.1 and dual-stack [::]):
         # the new datagrams belong to a new session and must be served like the first ones
         PE = {k: free_port() for k in ("rev6", "rev4", "api")}
